@@ -183,12 +183,49 @@ pub fn run_op(op: &str, a: &[&str]) -> String {
                 Err(e) => format!("ERR {} {}", err_name(e), hex(&buf)),
             }
         }
-        "parse_phy" => match parse(&unhex(a[0])) {
-            Ok(PhyPayload::JoinRequest(_)) => "JR".into(),
-            Ok(PhyPayload::JoinAccept(_)) => "JA".into(),
-            Ok(PhyPayload::Data(_)) => "DATA".into(),
-            Err(e) => format!("ERR {}", err_name(e)),
-        },
+        "parse_phy" => {
+            // whatever the parser accepts must be safe to use: every accessor of the accepted object is exercised (a panic shows as
+            // PANIC through catch_unwind); the values themselves are compared by the parse_data / parse_jr / ja_decrypt operations
+            let bytes = unhex(a[0]);
+            let kind = match parse(&bytes) {
+                Ok(PhyPayload::JoinRequest(p)) => {
+                    let _ = (p.join_eui(), p.dev_eui(), p.dev_nonce(), p.mic(), p.as_bytes().len(), p.validate_mic(&DefaultCrypto::new(&key16("07070707070707070707070707070707"))));
+                    "JR"
+                }
+                Ok(PhyPayload::JoinAccept(_)) => {
+                    let c = DefaultCrypto::new(&key16("07070707070707070707070707070707"));
+                    let mut b1 = bytes.clone();
+                    if let Ok(p) = DecryptedJoinAcceptPayload::decrypt_in_place(&mut b1, &c) {
+                        let dn = DevNonce::from_value(1);
+                        let _ = (p.validate_mic(&c), p.join_nonce(), p.net_id(), p.dev_addr(), p.dl_settings(), p.rx_delay(), cflist_str(&p.c_f_list()),
+                                 p.mic(), p.as_bytes().len(), p.derive_nwkskey(dn, &c), p.derive_appskey(dn, &c));
+                    }
+                    let mut b2 = bytes.clone();
+                    let _ = DecryptedJoinAcceptPayload::check_mic_and_decrypt_in_place(&mut b2, &c).is_ok();
+                    "JA"
+                }
+                Ok(PhyPayload::Data(_)) => {
+                    if let Ok(p) = EncryptedDataPayload::parse(&bytes) {
+                        let h = p.fhdr();
+                        let _ = (p.frame_type(), p.is_uplink(), p.is_confirmed(), p.f_port(), p.mic(), p.as_bytes().len(), h.dev_addr(), h.fctrl(),
+                                 h.fcnt(), h.f_opts().len(), p.validate_mic(&DefaultCrypto::new(&key16("07070707070707070707070707070707")), 0));
+                    }
+                    let c = DefaultCrypto::new(&key16("07070707070707070707070707070707"));
+                    let mut b1 = bytes.clone();
+                    if let Ok(p) = DecryptedDataPayload::decrypt_in_place(&mut b1, Some(&c), Some(&c), 0) {
+                        let n = match p.frm_payload() {
+                            FrmPayload::None => 0,
+                            FrmPayload::Data(d) => d.len(),
+                            FrmPayload::MacCommands(d) => d.len(),
+                        };
+                        let _ = (n, p.f_port(), p.fhdr().f_opts().len());
+                    }
+                    "DATA"
+                }
+                Err(e) => return format!("ERR {}", err_name(e)),
+            };
+            kind.into()
+        }
         "parse_data" => {
             // mode bytes nwk app fcnt
             let mode = a[0];
